@@ -298,7 +298,8 @@ fn pbkdf2(req: &Value) -> R {
         "sha512" => PBKDF2Hashes::SHA512,
         f => return Err(drv(format!("fn {}", f))),
     };
-    let k = KDF::pbkdf2(&hx(req, "password")?, Some(hx(req, "salt")?), algo, un(req, "rounds")? as u32, un(req, "len")? as usize);
+    // salt absent => the library draws a random salt and reports it
+    let k = KDF::pbkdf2(&hx(req, "password")?, hx_opt(req, "salt")?, algo, un(req, "rounds")? as u32, un(req, "len")? as usize);
     Ok(json!({"hash": h(&k.get_hash().to_bytes()), "salt": h(&k.get_salt())}))
 }
 
